@@ -23,7 +23,7 @@ for d in $demos; do
   case "$p" in /*) p=${p#$WT/}; p=${p#/tmp/wt-*/};; esac
   mkdir -p $(dirname $p); cp $SRC/$d $p; paths="$paths $p"
 done
-cmd=$(python3 -c "import json;print(json.load(open('$SRC/meta.json'))['demo_cmd'])" | sed -E "s#\(?cd /tmp/wt-[A-Z0-9]+ *&& *##; s#\)\$##; s#/tmp/wt-[A-Z0-9]+/##g; s#export [^;]*; *##")
+cmd=$(python3 -c "import json;print(json.load(open('$SRC/meta.json'))['demo_cmd'])" | sed -E "s#\(?cd /tmp/wt[0-9]*-[A-Z0-9]+ *&& *##; s#\)\$##; s#/tmp/wt[0-9]*-[A-Z0-9]+/##g; s#export [^;]*; *##")
 echo "demo cmd: $cmd ; files:$paths"
 with=$(bash -c "$cmd" 2>&1 | tail -15); wcode=$?
 bash -c "$cmd" >/dev/null 2>&1; wcode=$?
